@@ -55,3 +55,19 @@ pub fn match_header_value_vectored(bytes: &mut Bytes) {
         }
     }
 }
+
+// Verification hook (compiled only with `--cfg httparse_verif`): overwrite the cached backend id.
+#[cfg(httparse_verif)]
+#[doc(hidden)]
+#[allow(missing_docs)]
+pub fn _verif_set_runtime_feature(feature: u8) {
+    RUNTIME_FEATURE.store(feature, Ordering::Relaxed);
+}
+
+// Verification hook: what detection would (or did) choose, and the raw cached value.
+#[cfg(httparse_verif)]
+#[doc(hidden)]
+#[allow(missing_docs)]
+pub fn _verif_runtime_feature() -> (u8, u8) {
+    (RUNTIME_FEATURE.load(Ordering::Relaxed), detect_runtime_feature())
+}
